@@ -161,6 +161,10 @@ def rule_pass(ctx):
     fn = find_fn(SA, "find_signal_assignments")
     if fn is None:
         return ctx.missing(R, "find_signal_assignments")
+    import c08eval
+
+    if c08eval.rule(ctx, R, "reports"):
+        return
     import alpha
     from pathcond import enumerate_paths
 
@@ -409,6 +413,9 @@ def rule_constraints(ctx):
 
 def rule_constraint_lookup(ctx, R="C08.7"):
     ctx.rule(R, "the constraints listed with a `<--` finding are all constraints that mention the assigned signal (same name and access) on either side - decided by evaluating the lookup on three recorded constraints")
+    import c08eval
+
+    c08eval.rule(ctx, R, "constraints")
     import passeval
     from finfun import Iter, S, Unsupported
     from passeval import O, Sink
